@@ -20,7 +20,12 @@ use tokio::runtime::Runtime;
 use tokio::sync::Barrier;
 use verif_harness::*;
 
-const LOST_AFTER: Duration = Duration::from_secs(40); // a receiver still waiting this long after progress stopped = lost chunk
+// a receiver still waiting this long after all progress stopped = lost chunk; generous
+// until a loss has been established twice (then the run is failing anyway), short afterwards
+static LOSSES: std::sync::atomic::AtomicUsize = std::sync::atomic::AtomicUsize::new(0);
+fn lost_after() -> Duration {
+    if LOSSES.load(std::sync::atomic::Ordering::Relaxed) < 2 { Duration::from_secs(40) } else { Duration::from_secs(3) }
+}
 
 #[derive(Clone)]
 struct AgentPlan {
@@ -59,17 +64,19 @@ async fn agent_task(mut ch: mux::AgentChannel, sends: Vec<Vec<u8>>, yields: Vec<
         // drain what is there (a slow consumer starts late)
         if Instant::now() < recv_from { if next >= sends.len() { tokio::time::sleep(Duration::from_millis(2)).await; } last_progress = Instant::now(); continue; }
         loop {
-            let wait = if next >= sends.len() || send_err.is_some() { Duration::from_millis(20) } else { Duration::from_micros(200) };
-            match tokio::time::timeout(wait, ch.dequeue_chunk()).await {
-                Ok(Ok(c)) => { received.push(c); progressed = true; if received.len() > expect + 8 { break; } }
-                Ok(Err(_)) => { lost = true; break; }
-                Err(_) => break,
+            // while there is still something to send only take what is already queued (one poll)
+            let r = if next >= sends.len() || send_err.is_some() { tokio::time::timeout(Duration::from_millis(20), ch.dequeue_chunk()).await.ok() }
+                    else { futures::FutureExt::now_or_never(ch.dequeue_chunk()) };
+            match r {
+                Some(Ok(c)) => { received.push(c); progressed = true; if received.len() > expect + 8 { break; } }
+                Some(Err(_)) => { lost = true; break; }
+                None => break,
             }
         }
         if lost || received.len() > expect + 8 { break; }
         if send_err.is_some() && next < sends.len() { next = sends.len(); }
         if progressed { last_progress = Instant::now(); }
-        else if last_progress.elapsed() > LOST_AFTER { lost = true; break; }
+        else if last_progress.elapsed() > lost_after() { lost = true; break; }
     }
     // everybody done (or given up): nothing more may arrive
     barrier.wait().await;
@@ -133,6 +140,38 @@ fn run(rt: &Runtime, plans: &[AgentPlan], seed: u64) -> Result<RunOut, String> {
         let a2b = tokio::time::timeout(Duration::from_secs(20), f_ab).await.map_err(|_| "forwarder did not finish".to_string())?.map_err(|e| format!("{e}"))?;
         let b2a = tokio::time::timeout(Duration::from_secs(20), f_ba).await.map_err(|_| "forwarder did not finish".to_string())?.map_err(|e| format!("{e}"))?;
         Ok(RunOut { a, b, a2b, b2a })
+    })
+}
+
+/// pallas-network2 bearer: write_segment on one end read raw on the other, and raw bytes read back by read_segment
+fn run_net2(rt: &Runtime, segs: &[(u32, u16, Vec<u8>)]) -> Result<(Vec<u8>, Vec<(u16, Vec<u8>)>), String> {
+    use pallas_network2::bearer::Bearer;
+    let segs = segs.to_vec();
+    rt.block_on(async move {
+        let (a, b) = tokio::net::UnixStream::pair().map_err(|e| format!("socketpair: {e}"))?;
+        let (c, d) = tokio::net::UnixStream::pair().map_err(|e| format!("socketpair: {e}"))?;
+        let (_ra, mut wa) = Bearer::Unix(a).into_split();
+        let (mut rd, _wd) = Bearer::Unix(d).into_split();
+        let n = segs.len();
+        let total: usize = segs.iter().map(|s| 8 + s.2.len()).sum();
+        let writer = tokio::spawn(async move { for (ts, p, pl) in segs.iter() { if wa.write_segment(*p, *ts, pl).await.is_err() { return false; } } true });
+        // raw side: read everything the real writer produced, then replay it into the real reader
+        let mut b = b;
+        let mut raw = vec![0u8; total];
+        tokio::time::timeout(Duration::from_secs(60), b.read_exact(&mut raw)).await.map_err(|_| "raw read timed out".to_string())?.map_err(|e| format!("raw read: {e}"))?;
+        let _ = writer.await;
+        let raw2 = raw.clone();
+        let feeder = tokio::spawn(async move { let mut c = c; let _ = c.write_all(&raw2).await; let _ = c.shutdown().await; });
+        let mut back = Vec::new();
+        for _ in 0..n {
+            match tokio::time::timeout(Duration::from_secs(60), rd.read_segment()).await {
+                Ok(Ok((p, pl))) => back.push((p, pl)),
+                Ok(Err(_)) => break,
+                Err(_) => return Err("read_segment timed out".to_string()),
+            }
+        }
+        let _ = feeder.await;
+        Ok((raw, back))
     })
 }
 
@@ -227,7 +266,7 @@ fn main() {
             let ai = plans.len() - 1;
             plans[ai].a_sends = (0..n).map(|s| { let mut c = make_chunk(&mut rng, ai as u8, 0, s, false); c.truncate(40); c }).collect();
             plans[ai].a_yields = vec![0; n];
-            plans[ai].b_recv_delay_ms = 120;
+            plans[ai].b_recv_delay_ms = 400;
         }
         // sometimes the same protocol number in both roles (ids p and p^0x8000 in both directions)
         if nagents >= 2 && rng.chance(1, 3) {
@@ -242,6 +281,7 @@ fn main() {
         let sched = plans.iter().enumerate().map(|(i, p)| format!("agent{}: proto={} A-role={} A-sends=[{}] B-sends=[{}]", i, p.proto,
             if p.a_is_client { "client" } else { "server" }, chunks_desc(&p.a_sends), chunks_desc(&p.b_sends))).collect::<Vec<_>>().join(" ; ");
         if run_idx < 3 { emit_sample(&format!("run {}: {}", run_idx, sched.chars().take(600).collect::<String>())); }
+        if out.a.iter().chain(out.b.iter()).any(|o| o.lost) { LOSSES.fetch_add(1, std::sync::atomic::Ordering::Relaxed); }
         // ---- oracle 1: per-agent delivery
         for (i, p) in plans.iter().enumerate() {
             for (side, got, want) in [("B", &out.b[i], &p.a_sends), ("A", &out.a[i], &p.b_sends)] {
@@ -291,8 +331,31 @@ fn main() {
                 if let Ok(segs) = parse_wire(rec) { let mut i = 0; for s in &segs { for j in 0..4 { masked[i + j] = 0; } i += 8 + s.2.len(); } }
                 let tag = format!("{}agents{}", if plans.len() == 1 { "trivial-single-agent:" } else { "" }, plans.len());
                 let per = |v: &Vec<&Vec<Vec<u8>>>| coq_list(&(0..ids.len()).collect::<Vec<_>>(), |i| format!("({},{})", ids[*i], coq_list(v[*i], |c| cb(c))));
-                emit_case(&tag, &format!("({},{},{})", cb(&masked), per(&sent), per(&recvd)));
+                emit_case(&tag, &format!("(CPlex {} {} {})", cb(&masked), per(&sent), per(&recvd)));
             }
+        }
+    }
+    // ---- pallas-network2 bearer: same wire format (Header, write_segment, read_segment)
+    for k in 0..(args.n / 2 + 2) {
+        let nseg = rng.range(1, 12) as usize;
+        let segs: Vec<(u32, u16, Vec<u8>)> = (0..nseg).map(|s| {
+            let ts = match rng.below(4) { 0 => 0, 1 => u32::MAX, 2 => rng.edge_u64() as u32, _ => rng.next() as u32 };
+            let p = match rng.below(4) { 0 => *rng.pick(&protos), 1 => *rng.pick(&protos) | 0x8000, 2 => 0xffff, _ => rng.next() as u16 };
+            let mut c = make_chunk(&mut rng, 7, 0, s, k % 5 == 0);
+            if k % 5 != 0 { c.truncate(3000); }
+            (ts, p, c)
+        }).collect();
+        let (raw, back) = match run_net2(&rt, &segs) { Ok(x) => x, Err(e) => { eprintln!("c20 harness tool error: {e}"); std::process::exit(3); } };
+        total_chunks += nseg as u64;
+        let mut expect_raw = Vec::new();
+        for (ts, p, pl) in &segs { expect_raw.extend_from_slice(&ts.to_be_bytes()); expect_raw.extend_from_slice(&p.to_be_bytes()); expect_raw.extend_from_slice(&(pl.len() as u16).to_be_bytes()); expect_raw.extend_from_slice(pl); }
+        let desc = segs.iter().map(|(ts, p, pl)| format!("(ts {} proto {} payload {})", ts, p, chunk_desc(pl))).collect::<Vec<_>>().join(",");
+        if raw != expect_raw { emit_oracle_fail("net2:write_segment", &format!("pallas-network2 write_segment of [{}] produced {} bytes that are not header(ts,proto,len)+payload per segment", desc, raw.len())); }
+        let want: Vec<(u16, Vec<u8>)> = segs.iter().map(|(_, p, pl)| (*p, pl.clone())).collect();
+        if back != want { emit_oracle_fail("net2:read_segment", &format!("pallas-network2 read_segment over the bytes of [{}] returned [{}]", desc, back.iter().map(|(p, pl)| format!("({} {})", p, chunk_desc(pl))).collect::<Vec<_>>().join(","))); }
+        if !args.oracle_only {
+            emit_case("net2-bearer", &format!("(CNet2 {} {} {})", coq_list(&segs, |(ts, p, pl)| format!("({},{},{})", ts, p, cb(pl))), cb(&raw),
+                      coq_list(&back, |(p, pl)| format!("({},{})", p, cb(pl)))));
         }
     }
     emit_stat("chunks_oracle", total_chunks);
